@@ -974,8 +974,8 @@ func genPrivate(r *Rng, idx int, tier string, step func(op string) string) {
 	if !magnet && r.Chance(50) {
 		ntrk = r.Range(1, 2)
 	}
-	o := step(fmt.Sprintf("new pl=%d files=%s private=%s magnet=%s pex=%s cfg.AllowedFastSet=0 cfg.MaxMetadataSize=40000 trackers=%d",
-		l.pl, l.filesArg(), b01(private), b01(magnet), b01(r.Chance(80)), ntrk))
+	o := step(fmt.Sprintf("new pl=%d files=%s private=%s magnet=%s pex=%s cfg.AllowedFastSet=0 cfg.MaxMetadataSize=40000 trackers=%d dht=%s",
+		l.pl, l.filesArg(), b01(private), b01(magnet), b01(r.Chance(80)), ntrk, b01(r.Chance(35))))
 	if !strings.HasPrefix(o, "ok") {
 		return
 	}
